@@ -61,6 +61,15 @@ def reached_under(node, stop, atom):
     return result
 
 
+def strip_not(test):
+    """(core test, polarity) after peeling `not` wrappers"""
+    pol = True
+    while isinstance(test, ast.UnaryOp) and isinstance(test.op, ast.Not):
+        test = test.operand
+        pol = not pol
+    return test, pol
+
+
 def isinstance_atom(test):
     """isinstance(<Name>, <classes>) -> (name, [class exprs]) else None"""
     if isinstance(test, ast.Call) and isinstance(test.func, ast.Name) and test.func.id == "isinstance" and len(test.args) == 2 \
